@@ -18,7 +18,7 @@ ASSUMPTIONS = ['time is virtual: the library clock, sleeps and every blocking wa
                "library's own polling quanta (waitnoecho sleeps 0.1 s per round)",
                'signals handled by the parent are modelled as EINTR answers of select/poll (0-2 per execution), not as real signal delivery',
                'PopenSpawn reader thread runs eagerly (moves output to the queue as soon as it is written); delayafterread=0.01 there']
-REQUIRED_FLAGS = {'delayafterread_none': 1, 'timeout_on_time': 1, 'match_before_deadline': 1, 'trickle': 1, 'eintr': 1, 'hup_alive': 1, 'tnone_hang': 1}
+REQUIRED_FLAGS = {'flood': 1, 'bystander': 1, 'delayafterread_none': 1, 'timeout_on_time': 1, 'match_before_deadline': 1, 'trickle': 1, 'eintr': 1, 'hup_alive': 1, 'tnone_hang': 1}
 
 B = 0.25
 EPS = 0.01
@@ -66,6 +66,11 @@ def scenarios(task, Tref):
         if name != '0-':
             sc.append(('pending+match@' + name, [(None, 'w', b'yy'), (g, 'w', b'OK')]))
     sc.append(('trickle', [(Tref / 8 + i * Tref / 4, 'w', b'x') for i in range(16)]))
+    # a flood: every read returns exactly maxread (= 4 here) characters, for 4T
+    sc.append(('flood', [(Tref / 16 + i * Tref / 8, 'w', b'xxxx') for i in range(32)]))
+    # a second object of the same kind with unread output sits next to the one under test
+    sc.append(('silent+bystander', []))
+    sc.append(('match@T/2+bystander', [(Tref / 2, 'w', b'OK')]))
     sc.append(('trickle-then-match', [(Tref / 8 + i * Tref / 4, 'w', b'x') for i in range(2)] + [(Tref * 0.7, 'w', b'OK')]))
     if pty:
         for name, g in G[:3]:
@@ -76,11 +81,11 @@ def scenarios(task, Tref):
 
 
 class Setup(object):
-    def __init__(self, env, task):
+    def __init__(self, env, task, maxread=2000):
         tr = task['transport']
         self.sock = None
         self.proc = None
-        kw = dict(timeout=30, maxread=2000)      # the instance default is changed after construction, see below
+        kw = dict(timeout=30, maxread=maxread)   # the instance default is changed after construction, see below
         if tr.startswith('pty'):
             sp = E.pty_spawn(env, use_poll=(tr == 'pty-poll'), spawn_kw=dict(raw=True, echo=(task['entry'] == 'waitnoecho')), **kw)
             self.wfd = sp.hs_slave
@@ -138,12 +143,22 @@ def run_case(ch, task, T, scen, eintr, nodelay=False):
     env = E.Env(ch)
     env.eintr_budget = eintr
     st = None
+    other = None
     obs = {}
     viol = None
     name, events = scen
     try:
-        st = Setup(env, task)
+        st = Setup(env, task, maxread=4 if name == 'flood' else 2000)
         sp = st.sp
+        if name.endswith('+bystander') and task['transport'] != 'popen':
+            other = Setup(env, task)
+            k_, a_, fd_ = other.action('w', b'unread output of the other object')
+            env.fire(E.Action(k_, a_, None, fd_))
+            # the other object has been in use (one small read) and still has output nobody has read yet
+            if task['transport'] == 'socket':
+                other.sp.read_nonblocking(3, 0.01)
+            else:
+                other.sp.read_nonblocking(3, 0)
         if nodelay:
             sp.delayafterread = None        # documented setting: skip the sleep after each read
         t_start = env.now()
@@ -241,6 +256,10 @@ def run_case(ch, task, T, scen, eintr, nodelay=False):
                 E.finish_popen(env)
             if st is not None and st.tr.startswith('pty'):
                 E.finalize_pty(st.sp)
+                try:
+                    E.finalize_pty(other.sp)
+                except Exception:
+                    pass
             if st is not None and st.tr.startswith('fd'):
                 import os
                 try:
@@ -290,6 +309,10 @@ def run_task(task):
                         acc.flags['match_before_deadline'] += 1
                     if scen[0] == 'trickle':
                         acc.flags['trickle'] += 1
+                    if scen[0] == 'flood':
+                        acc.flags['flood'] += 1
+                    if scen[0].endswith('+bystander'):
+                        acc.flags['bystander'] += 1
                     if scen[0].startswith('hup@'):
                         acc.flags['hup_alive'] += 1
                     if o == 'hang' and T is None:
